@@ -335,8 +335,13 @@ def kv_parse(run, rng, text: str, engine: str) -> None:
         if ref[1] == 'IndexError':
             key = 'kvparse-indexerror-after-skipped-block'
         run.violation(f'Keyvalues.parse raised {ref[1]}: {ref[2]}', case=case, engine=engine, key=key)
+    from srctools.tokenizer import Tokenizer
+    esc = kw.get('allow_escapes', True)
     for label, data in (('chunks', random_chunks(rng, text, 9)), ('file', io.StringIO(text, newline='')),
-                        ('lines', text.splitlines(keepends=True))):
+                        ('lines', text.splitlines(keepends=True)),
+                        # an already constructed tokenizer (with and without a file name of its own) is a documented input
+                        ('tokenizer', Tokenizer(text, None, string_bracket=True, allow_escapes=esc)),
+                        ('named-tokenizer', Tokenizer(text, 'some/file.txt', string_bracket=True, allow_escapes=esc))):
         got = kv_outcome(data, kw)
         if got != ref:
             run.violation(f'Keyvalues.parse result depends on delivery ({label})',
@@ -400,6 +405,13 @@ def kv_exhaustive(run, shard, thorough: bool) -> None:
                 if got != out:
                     run.violation('Keyvalues.parse result depends on delivery (chars)', witness={'reference': out, 'got': got},
                                   case={'text': text, 'kv_opts': dict(kw)}, engine='kv-exhaustive', key='kvparse-chunk-dependent')
+                if idx % 4 == 0:
+                    from srctools.tokenizer import Tokenizer
+                    got = kv_outcome(Tokenizer(text, 'named.txt', string_bracket=True, allow_escapes=kw.get('allow_escapes', True)), kw)
+                    if got != out:
+                        run.violation('Keyvalues.parse result differs when the text arrives as an already constructed (named) Tokenizer',
+                                      witness={'reference': out, 'got': got}, case={'text': text, 'kv_opts': dict(kw)},
+                                      engine='kv-exhaustive', key='kvparse-prebuilt-tokenizer-differs')
     run.case_bulk(evals, evals)
     run.count('kv_exhaustive_texts_x_options', evals)
     run.count('kv_parse_calls', 2 * evals)
